@@ -441,6 +441,17 @@ pub fn apply(m: &Market, st: &St, act: &Act) -> St {
             }
         }
     }
+    // the object the action was applied to is a CLONE of the state's object: the original must not have moved
+    // (a clone that still shares rates, quotes or a cache with its source would show here)
+    if bad.is_none() {
+        let orig_vals = all_values(&st.fx);
+        let same_vals = orig_vals.len() == before_vals.len() && orig_vals.iter().zip(before_vals.iter()).all(|(x, y)| x.to_bits() == y.to_bits() || (x.is_nan() && y.is_nan()));
+        let orig_quotes = hooks::fxrates_fx_rates(&st.fx);
+        let want_quotes: Vec<FXRate> = (0..m.quotes.len()).map(|i| mk_rate(m, i, st.shadow[i].0, st.shadow[i].1)).collect();
+        if !same_vals || orig_quotes != want_quotes {
+            flag(&mut bad, "history/clone-shares-state", format!("the market the clone was taken from changed when {:?} was applied to the clone", act));
+        }
+    }
     // state invariants: stored quotes == latest quotes; rates == market built directly from them
     if bad.is_none() {
         let stored = hooks::fxrates_fx_rates(&fx);
@@ -747,7 +758,7 @@ pub fn run(ctx: &Ctx, replay_file: Option<String>) -> ! {
          (reversed pair, unquoted pair, foreign currency, inconsistent settlement, one valid + one invalid quote); \
          set_ad_order(0|1|2). Markets: every tree on 2-3 currencies in every orientation, every labelled tree on 4 currencies (one \
          orientation each; all orientations in the thorough tier), with and without settlement, different bases. On every transition: a refused update returns Err and leaves the \
-         content unchanged; set_ad_order sets the kind and changes no value by more than 4 ulp; in every state the \
+         content unchanged; set_ad_order sets the kind and changes no value by more than 4 ulp; the object a transition is applied to is a clone, and the object it was cloned from must not move; in every state the \
          stored quotes are the latest ones and all rates equal (1e-12; as dual numbers by name at order 1 and 2) those \
          of FXRates::try_new(latest quotes, same base). The search runs to the fixpoint (frontier empty), so histories \
          of every length over this action menu are covered. Large markets (chain, star, caterpillar on 10, 12, 13 currencies) are not searched to a fixpoint: \
